@@ -202,6 +202,8 @@ class FakePath(Native):
         loc = self._loc(False)
         if loc not in self.fs.nodes:
             raise ModelRaise("FileNotFoundError", ["ENOENT"], cls=FileNotFoundError)
+        if self.fs.kind(loc) == "dir":
+            raise ModelRaise("IsADirectoryError", ["EISDIR"], cls=IsADirectoryError)
         del self.fs.nodes[loc]
         self.fs.record("unlink", loc)
 
